@@ -799,12 +799,37 @@ def main(tier, replay=None):
     chk.assumptions = ["models hand-written after givratreconstruct.C and givpoly1ratrecon.inl; tie = correspondence on generated cases for every public call form",
                        "the `recurs` flag of Rational::ratrecon only controls std::cerr output and is not modelled",
                        "givaro defects repaired in /repo that this model follows: 5d1bca8 (residue f <= -m reduced with modin), 68125ac (6-argument RationalReconstruction returns ratrecon(...) && b <= b_bound)"]
-    res = vf.coq_check_props(AREA)
-    chk.proof_result(res, AREA)
-    drv, l1 = vf.ocaml_build(AREA) if os.path.exists(os.path.join(vf.coq_dir(AREA), "ocaml", "model.ml")) else (None, "extraction did not run")
+    # the Coq build (coq/C08 first: imported read-only, then coq/C11) and the C++ builds are independent: run them side by side
+    import threading
+    box = {}
+    def coq_side():
+        res = vf.coq_check_props(AREA)
+        # coq/C08 is also rebuilt by its own check: a build that fails while the other make is writing the same .vo files is
+        # transient - retry before calling the obligation broken
+        for attempt in range(2):
+            if res["ok"] or res["forbidden"]: break
+            time.sleep(15 + 30 * attempt)
+            chk.notes.append("Coq build retried (attempt %d): %s" % (attempt + 2, res["log"][-300:].replace("\n", " | ")))
+            res = vf.coq_check_props(AREA)
+        box["res"] = res
+        box["drv"] = vf.ocaml_build(AREA) if os.path.exists(os.path.join(vf.coq_dir(AREA), "ocaml", "model.ml")) else (None, "extraction did not run")
+    def coq_side_safe():
+        try:
+            coq_side()
+        except Exception as ex:         # never lose the verdict to a tooling exception in the side thread
+            box["exc"] = repr(ex)
+    th = threading.Thread(target=coq_side_safe)
+    th.start()
+    himpl, l2 = vf.build_harness("c11_ratrecon.C")
+    th.join()
+    if "res" not in box:
+        box["res"] = vf.coq_check_props(AREA)
+    if "drv" not in box:
+        box["drv"] = vf.ocaml_build(AREA) if os.path.exists(os.path.join(vf.coq_dir(AREA), "ocaml", "model.ml")) else (None, "extraction did not run: %s" % box.get("exc"))
+    chk.proof_result(box["res"], AREA)
+    drv, l1 = box["drv"]
     if drv is None:
         chk.broke("extracted model driver does not build", l1)
-    himpl, l2 = vf.build_harness("c11_ratrecon.C")
     if himpl is None:
         chk.broke("implementation harness does not compile against /repo", l2)
         return chk.finish()
@@ -844,7 +869,7 @@ def main(tier, replay=None):
         slots = {(2, 1, 1): 4, (2, 2, 1): 5, (2, 3, 1): 6, (2, 4, 1): 4, (3, 1, 1): 4, (3, 1, 2): 3, (3, 2, 1): 3, (3, 2, 2): 2}
     else:
         slots = dict(((2, d, 1), d + 3 if d <= 4 else d) for d in range(1, 7))
-        slots.update(dict(((3, d, l), d + 2 if d <= 2 else d) for d in range(1, 5) for l in (1, 2)))
+        slots.update(dict(((3, d, l), d + 2 if d <= 2 else d) for d in range(1, 5) for l in (1, 2) if d <= 3 or l == 1))
     for (p, dM, lead), dP in sorted(slots.items()):
         for mi in range(p ** dM):
             M = [(mi // p ** j) % p for j in range(dM)] + [lead]
